@@ -211,6 +211,26 @@ func evalCase(prog *gl.Program, name string, gores gorun.CaseResult, opt tvOptio
 		}
 	}
 	for _, o := range outs {
+		if o.Kind == "unsupported" && strings.Contains(o.Detail, "Fork outside the schedule explorer") {
+			// the case spawns threads: every interleaving must reproduce Go's (single) result
+			ex := gl.Explore(prog, gl.CapExact, name, 3000, 300000, dec, 30)
+			bad := ""
+			for k := range ex.Outcomes {
+				if k != "value:"+gores.Value {
+					bad = k
+				}
+			}
+			switch {
+			case bad == "":
+				return "value:" + gores.Value, "agree"
+			case strings.HasPrefix(bad, "unsupported") || strings.HasPrefix(bad, "depth") || strings.HasPrefix(bad, "internal"):
+				return bad, "inconclusive:explorer"
+			default:
+				return fmt.Sprintf("%s in some of %d interleavings (all outcomes: %v)", bad, ex.Schedules, ex.SortedOutcomes()), "mismatch"
+			}
+		}
+	}
+	for _, o := range outs {
 		switch o.Kind {
 		case "unsupported", "diverge", "internal":
 			return o.String(), "inconclusive:" + o.Kind
